@@ -455,3 +455,84 @@ async def c13_part(ctx) -> None:
 async def c13_replay(ctx, d) -> None:
     ctx.shard, ctx.nshards = 0, 1
     await c13_part(ctx)
+
+
+# ---------------------------------------------------------------------------------------------
+# C12: CoAP event bursts reach every listener once and in order
+# ---------------------------------------------------------------------------------------------
+
+
+async def c12_part(ctx) -> None:
+    """Notifications with 1-6 entries (the SAME characteristic may occur more than once: on then off, a dragged slider) pushed
+    through the real EventResource to a real CoAPPairing with two listeners, one of which raises."""
+    import struct
+
+    from aiocoap import Message
+    from aiocoap.numbers.codes import Code
+    from aiohomekit.characteristic_cache import CharacteristicCacheMemory
+    from aiohomekit.controller.coap.controller import CoAPController
+    from aiohomekit.controller.coap.pairing import CoAPPairing
+
+    for k in range(ctx.pick(4, 60)):
+        if not ctx.mine(k):
+            continue
+        rng = ctx.grng("C12.coap", k)
+        acc = CoapAccessory(rng)
+        fac = ContextFactory(acc).install()
+        replay = {"t": "coap-events", "k": k}
+        try:
+            controller = CoAPController(char_cache=CharacteristicCacheMemory(), zeroconf_instance=None)
+            pairing = CoAPPairing(controller, acc.pairing_data())
+            await asyncio.wait_for(pairing.list_accessories_and_characteristics(), 60)
+            got_a, got_b = [], []
+
+            def raising(ev):
+                got_a.append(ev)
+                raise RuntimeError("listener failure")
+
+            pairing.dispatcher_connect(raising)
+            pairing.dispatcher_connect(lambda ev: got_b.append(ev))
+            await asyncio.wait_for(pairing.subscribe([(1, 10), (1, 11), (1, 13)]), 60)
+            site = acc.site
+            resource = site._resources.get(()) if site is not None and hasattr(site, "_resources") else None
+            if resource is None:
+                ctx.mark_inconclusive("C12 CoAP slice: no event resource registered")
+                return
+            got_a.clear()
+            got_b.clear()
+            want = []
+            for n in range(rng.randint(3, 10)):
+                items = []
+                for _ in range(rng.randint(1, 6)):
+                    iid = rng.choice([10, 10, 11, 13])
+                    if iid == 10:
+                        v = rng.choice([True, False])
+                        raw = b"\x01" if v else b"\x00"
+                    elif iid == 11:
+                        v = rng.randint(-1000, 1000)
+                        raw = struct.pack("<i", v)
+                    else:
+                        raw = struct.pack("<f", rng.choice([0.5, 21.25, -3.0, 1024.0, 0.0]))
+                        v = struct.unpack("<f", raw)[0]
+                    items.append((iid, raw))
+                    want.append({(1, iid): {"value": v}})
+                ctx.case("coap-events", k, n, sample={"transport": "coap", "entries": [i for i, _ in items]}, kind="coap-events")
+                try:
+                    resp = await resource.render_put(Message(code=Code.PUT, payload=acc.event_message(items)))
+                except Exception as ex:  # noqa: BLE001
+                    ctx.violation(f"coap-event-handler-raises-{type(ex).__name__}", f"notification {n} entries {[i for i, _ in items]}: {ex!r}", replay)
+                    return
+                if resp.code != Code.VALID:
+                    ctx.violation("coap-event-refused", f"notification {n}: answered {resp.code}", replay)
+                    return
+            for name, got in (("raising listener", got_a), ("second listener", got_b)):
+                flat = [{key: val} for ev in got for key, val in ev.items()]
+                if flat != want:
+                    lost = len(want) - len(flat)
+                    ctx.violation("coap-event-lost-or-reordered", f"{name}: the accessory sent {len(want)} entries (same characteristic repeated inside a notification), listeners saw {len(flat)}"
+                                                                  f" ({'lost ' + str(lost) if lost > 0 else 'order / values differ'}); first difference at {next((i for i, (x, y) in enumerate(zip(flat, want)) if x != y), min(len(flat), len(want)))}", replay)
+                    return
+            ctx.count("coap_event_entries_delivered", len(want))
+            ctx.count("events_sent", len(want))
+        finally:
+            fac.remove()
